@@ -17,7 +17,7 @@ def showRedef (o : RedefOutcome) : String :=
   | .outputFiltered => "outfilter"
   | .unsat a _ => s!"unsat {",".intercalate ((a.map showLabel).mergeSort (· ≤ ·))}"
   | .missingArg => "missingarg"
-  | .funcErr e => s!"e0 {e}"
+  | .funcErr e => if e = 1 then "e0 typednil" else s!"e0 {e}"
   | .panic k => s!"panic {repr k}"
   | .outOfFuel => "crash"
   | .badOracle w => s!"badOracle({w})"
@@ -75,13 +75,14 @@ def runRedef (fl : Flags) (b : Block) : Res :=
     else if ie.mergeSort (· ≤ ·) ≠ me then
       some s!"graph_edges_only_model={",".intercalate (me.filter (fun x => !ie.contains x))}_only_impl={",".intercalate (ie.filter (fun x => !me.contains x))}"
     else none
-  let runs := splitRunsWith ["rdres", "rdexecs"] b.lines
+  let runs := splitRunsWith ["rdres", "rdexecs", "rdsets"] b.lines
   let supplied := suppliedOf bld
   let outCount := fun (fid : Nat) => ((sc.fn fid).map (fun f => f.output.values.length)).getD 0
   let per := runs.map (fun rl =>
     let evs := rl.1
     let rdres := ((rl.2.find? (fun l => l.head? = some "rdres")).getD []).drop 1
     let rdexecs := natOf ((((rl.2.find? (fun l => l.head? = some "rdexecs")).getD []).drop 1).headD "0")
+    let rdsets := (((rl.2.find? (fun l => l.head? = some "rdsets")).getD []).drop 1).headD "intact"
     let (items, dij) := buildOracle evs
     let c1 := dij.findSome? (fun d =>
       if !legalChoice cgr.cg.g d.1 d.2.1 then some s!"illegal_pop_order_for_{showVtx d.1}"
@@ -113,7 +114,8 @@ def runRedef (fl : Flags) (b : Block) : Res :=
             if target.input.labels.all passes ∧ rdres.head? ≠ some "ok" then
               some s!"all_parameters_permitted_but_{noSpace (showImplRedef rdres)}"
             else none
-    let p09 : Option String := if rdexecs = 0 then none else some s!"redefine_executed_{rdexecs}_user_function_bodies"
+    let p09 : Option String := if rdexecs ≠ 0 then some s!"redefine_executed_{rdexecs}_user_function_bodies"
+      else if rdsets ≠ "intact" then some s!"redefine_left_value_sets_{rdsets}" else none
     -- C11: a run-once function's body must not run during planning (its first real use would be its second run)
     let p11 : Option String := if rdexecs > 0 ∧ sc.fns.any (fun f => f.desc.once) then
       some s!"redefine_executed_{rdexecs}_function_bodies_in_a_scenario_with_run-once_converters" else none
